@@ -182,7 +182,7 @@ Proof.
     cbn [run_ok] in Hro. rewrite decode_render, ED in Hro. destruct Hro as (Hs & Hroom & Hr).
     assert (HI : ainv c rootns pe root f st d) by (constructor; assumption).
     destruct (progress_step c o rootns pe root f st d a f1 D HI Hph Hspec ED Hs Hroom) as [st1 E1].
-    destruct (accept_step c o rootns pe root f st d a f1 D st1 HI Hph Hspec ED Hs Hroom E1) as (d1 & He1 & HR1 & Hid1 & Hal1).
+    destruct (accept_step c o rootns pe root f st d a f1 D st1 HI Hph Hspec ED Hs Hroom E1) as (d1 & He1 & HR1 & Hid1 & Hal1 & _).
     destruct (step_ph c o rootns st D st1 Hph Hs Hroom E1) as (Hph1 & _).
     pose proof (step_clean c o rootns st D st1 HC Hs HpD E1) as HC1.
     destruct (IH f1 st1 d1 gs' fT) as (st' & E' & R2); auto.
